@@ -526,7 +526,7 @@ MC_INIT
     add(3, 9, 12, false);
     add(4, 8, 10, false);
 #if !C10_ASSERT_BUILD
-    add(5, 9, 9, true); // thorough only, structural build only (2.4e3 CPU-seconds were not enough for depth 10)
+    add(5, 8, 8, true); // thorough only, structural build only (depth 9 = 5.4e6 states / 4.9e7 transitions does not fit the 1200 s tier budget)
 #endif
 }
 MC_MAIN
